@@ -66,16 +66,22 @@ Proof. rewrite <- phase_eqb_true; destruct (phase_eqb a b); split; congruence. Q
 (* i' was obtained from i by emitting `added` (newest first) along a well-ordered chain of progress points *)
 Definition Rc (i i' : inst) : Prop := exists added, i_out i' = added ++ i_out i /\ chain_ok (pkey i) (rev added) (pkey i').
 (* frame: a recorded internal error persists, the DECIDE quorum state is untouched *)
-Definition Fr (i i' : inst) : Prop := (forall e, i_err i = Some e -> i_err i' = Some e) /\ i_decision i' = i_decision i.
+Definition Fr (i i' : inst) : Prop :=
+  (forall e, i_err i = Some e -> i_err i' = Some e) /\ i_decision i' = i_decision i /\
+  incl (i_cands i) (i_cands i') /\ i_input i' = i_input i.
 Definition R (i i' : inst) : Prop := Rc i i' /\ Fr i i'.
 
-Lemma Fr_eq i i' : i_err i' = i_err i -> i_decision i' = i_decision i -> Fr i i'.
-Proof. intros E1 E2; split; [intros e H; congruence|exact E2]. Qed.
-Lemma Fr_refl i : Fr i i. Proof. apply Fr_eq; reflexivity. Qed.
+Lemma Fr_eq i i' : i_err i' = i_err i -> i_decision i' = i_decision i -> incl (i_cands i) (i_cands i') -> i_input i' = i_input i -> Fr i i'.
+Proof. intros E1 E2 E3 E4; split; [intros e H; congruence|split; [exact E2|split; assumption]]. Qed.
+Lemma Fr_refl i : Fr i i. Proof. apply Fr_eq; try reflexivity. apply incl_refl. Qed.
 Lemma Fr_trans a b c : Fr a b -> Fr b c -> Fr a c.
-Proof. intros [H1 H2] [H3 H4]; split; [intros e H; auto|congruence]. Qed.
+Proof.
+  intros (H1 & H2 & H3 & H4) (H5 & H6 & H7 & H8); split; [intros e H; auto|split; [congruence|split; [|congruence]]].
+  eapply incl_tran; eauto.
+Qed.
 Lemma Fr_fail i e : Fr i (fail i e).
-Proof. split; [|reflexivity]. intros e0 H. cbn. rewrite H. reflexivity. Qed.
+Proof. split; [|split; [reflexivity|split; [apply incl_refl|reflexivity]]]. intros e0 H. cbn. rewrite H. reflexivity. Qed.
+Ltac fr_eq := apply Fr_eq; [reflexivity|reflexivity|apply incl_refl|reflexivity].
 
 Lemma Rc_intro added i i' : i_out i' = added ++ i_out i -> chain_ok (pkey i) (rev added) (pkey i') -> Rc i i'.
 Proof. intros; exists added; auto. Qed.
@@ -99,22 +105,24 @@ Proof. intros [H _]; apply Rc_kle; exact H. Qed.
 
 (* quiet changes: outputs, progress, error and DECIDE state untouched *)
 Definition same (i i' : inst) : Prop :=
-  i_out i' = i_out i /\ pkey i' = pkey i /\ i_err i' = i_err i /\ i_decision i' = i_decision i.
-Lemma same_refl i : same i i. Proof. repeat split. Qed.
+  i_out i' = i_out i /\ pkey i' = pkey i /\ i_err i' = i_err i /\ i_decision i' = i_decision i /\
+  incl (i_cands i) (i_cands i') /\ i_input i' = i_input i.
+Ltac same_triv := repeat split; try reflexivity; try assumption; apply incl_refl.
+Lemma same_refl i : same i i. Proof. same_triv. Qed.
 Lemma same_trans a b c : same a b -> same b c -> same a c.
-Proof. intros (A1 & A2 & A3 & A4) (B1 & B2 & B3 & B4); repeat split; congruence. Qed.
+Proof. intros (A1 & A2 & A3 & A4 & A5 & A6) (B1 & B2 & B3 & B4 & B5 & B6); repeat split; try congruence. eapply incl_tran; eauto. Qed.
 Lemma R_same i i' : same i i' -> R i i'.
-Proof. intros (E1 & E2 & E3 & E4). apply (R_intro []); simpl; auto; [rewrite E2; apply kle_refl|apply Fr_eq; assumption]. Qed.
+Proof. intros (E1 & E2 & E3 & E4 & E5 & E6). apply (R_intro []); simpl; auto; [rewrite E2; apply kle_refl|apply Fr_eq; assumption]. Qed.
 Lemma same_phase i i' : same i i' -> i_phase i' = i_phase i.
 Proof. intros (_ & E & _). apply phase_code_inj. change (snd (pkey i') = snd (pkey i)). rewrite E; reflexivity. Qed.
 Lemma same_round i i' : same i i' -> i_round i' = i_round i.
 Proof. intros (_ & E & _). change (fst (pkey i') = fst (pkey i)). rewrite E; reflexivity. Qed.
 
-Ltac r_quiet := apply R_same; repeat split; reflexivity.
+Ltac r_quiet := apply R_same; same_triv.
 
 Definition not_bcast (o : out) : Prop := match o with OBroadcast _ _ _ _ _ => False | _ => True end.
 Lemma R_emit i o : not_bcast o -> R i (emit i o).
-Proof. intros H. apply (R_intro [o]); [reflexivity| |apply Fr_eq; reflexivity]. destruct o; simpl in *; try contradiction; apply kle_refl. Qed.
+Proof. intros H. apply (R_intro [o]); [reflexivity| |fr_eq]. destruct o; simpl in *; try contradiction; apply kle_refl. Qed.
 Lemma R_fail i e : R i (fail i e).
 Proof. apply (R_intro []); [reflexivity|apply kle_refl|apply Fr_fail]. Qed.
 
@@ -155,9 +163,9 @@ Qed.
 Lemma R_advance_bcast i i' quiet r p v j t :
   i_out i' = OBroadcast r p v j t :: quiet ++ i_out i ->
   Forall not_bcast quiet -> klt (pkey i) (pkey i') -> okey r p (pkey i') ->
-  i_err i' = i_err i -> i_decision i' = i_decision i -> R i i'.
+  i_err i' = i_err i -> i_decision i' = i_decision i -> incl (i_cands i) (i_cands i') -> i_input i' = i_input i -> R i i'.
 Proof.
-  intros E Hq Hlt Hk He Hd. apply (R_intro (OBroadcast r p v j t :: quiet)); [exact E| |apply Fr_eq; assumption].
+  intros E Hq Hlt Hk He Hd Hc Hi. apply (R_intro (OBroadcast r p v j t :: quiet)); [exact E| |apply Fr_eq; assumption].
   simpl. assert (G : forall p0, chain_ok p0 (rev quiet) p0).
   { intros p0. apply Forall_rev in Hq. induction Hq as [|o l Ho _ IH]; simpl; [apply kle_refl|]. destruct o; simpl in Ho; try contradiction; exact IH. }
   eapply chain_ok_app; [apply G|]. simpl. exists (pkey i'); repeat split; auto; apply kle_refl || apply Hlt.
@@ -168,7 +176,7 @@ Lemma okey_same r p : p <> DECIDE -> okey r p (r, phase_code p). Proof. intros H
 Lemma R_begin_prepare c i j : phase_code (i_phase i) < 3 -> R i (begin_prepare c i j).
 Proof.
   intros H. unfold begin_prepare, broadcast, reset_rebroadcast, alarm_after.
-  eapply (R_advance_bcast _ _ [_]); [reflexivity|repeat constructor| |apply okey_same; discriminate|reflexivity|reflexivity].
+  eapply (R_advance_bcast _ _ [_]); [reflexivity|repeat constructor| |apply okey_same; discriminate|reflexivity|reflexivity|apply incl_refl|reflexivity].
   unfold klt, pkey; cbn. lia.
 Qed.
 Lemma pkey_begin_prepare c i j : pkey (begin_prepare c i j) = (i_round i, 3).
@@ -178,10 +186,10 @@ Lemma R_begin_commit c i : phase_code (i_phase i) < 4 -> R i (begin_commit c i).
 Proof.
   intros H. unfold begin_commit, broadcast.
   set (i1 := reset_rebroadcast (alarm_after c (set_progress i (i_round i) COMMIT) false)).
-  assert (Hq : R i i1). { unfold i1. eapply R_trans; [|apply R_reset]. eapply R_trans; [|apply R_alarm_after]. apply (R_intro []); [reflexivity| |apply Fr_eq; reflexivity]. simpl. right. unfold klt, pkey; cbn; lia. }
+  assert (Hq : R i i1). { unfold i1. eapply R_trans; [|apply R_reset]. eapply R_trans; [|apply R_alarm_after]. apply (R_intro []); [reflexivity| |fr_eq]. simpl. right. unfold klt, pkey; cbn; lia. }
   assert (Hb : forall v j, R i (emit i1 (OBroadcast (i_round i1) COMMIT v j false))).
   { intros v j. unfold i1, reset_rebroadcast, alarm_after.
-    eapply (R_advance_bcast _ _ [_]); [reflexivity|repeat constructor| |apply okey_same; discriminate|reflexivity|reflexivity].
+    eapply (R_advance_bcast _ _ [_]); [reflexivity|repeat constructor| |apply okey_same; discriminate|reflexivity|reflexivity|apply incl_refl|reflexivity].
     unfold klt, pkey; cbn; lia. }
   destruct (i_value i1) eqn:Ev; [apply Hb|].
   repeat match goal with
@@ -202,9 +210,9 @@ Lemma R_begin_decide c i round : phase_code (i_phase i) < 5 -> R i (begin_decide
 Proof.
   intros H. unfold begin_decide, broadcast.
   set (i1 := reset_rebroadcast (set_progress i (i_round i) DECIDE)).
-  assert (Hq : R i i1). { apply (R_intro []); [reflexivity| |apply Fr_eq; reflexivity]. simpl. right. unfold klt, pkey; cbn; lia. }
+  assert (Hq : R i i1). { apply (R_intro []); [reflexivity| |fr_eq]. simpl. right. unfold klt, pkey; cbn; lia. }
   destruct (q_find_sq_for c _ _); try (eapply R_trans; [exact Hq|apply R_fail]).
-  eapply (R_advance_bcast _ _ []); [reflexivity|constructor| |left; auto|reflexivity|reflexivity].
+  eapply (R_advance_bcast _ _ []); [reflexivity|constructor| |left; auto|reflexivity|reflexivity|apply incl_refl|reflexivity].
   unfold klt, pkey; cbn; lia.
 Qed.
 Lemma pkey_begin_decide c i round : pkey (begin_decide c i round) = (i_round i, 5).
@@ -213,20 +221,20 @@ Proof. unfold begin_decide, broadcast. destruct (q_find_sq_for c _ _); reflexivi
 Lemma R_skip_to_decide i v j : phase_code (i_phase i) < 5 -> R i (skip_to_decide i v j).
 Proof.
   intros H. unfold skip_to_decide, broadcast.
-  eapply (R_advance_bcast _ _ []); [reflexivity|constructor| |left; auto|reflexivity|reflexivity].
+  eapply (R_advance_bcast _ _ []); [reflexivity|constructor| |left; auto|reflexivity|reflexivity|apply incl_refl|reflexivity].
   unfold klt, pkey; cbn; lia.
 Qed.
 
 (* beginConverge entered with the round already advanced: the old key lies strictly below (round, CONVERGE) *)
 Lemma R_begin_converge c i0 i j :
-  i_out i = i_out i0 -> i_err i = i_err i0 -> i_decision i = i_decision i0 ->
+  i_out i = i_out i0 -> i_err i = i_err i0 -> i_decision i = i_decision i0 -> incl (i_cands i0) (i_cands i) -> i_input i = i_input i0 ->
   klt (pkey i0) (i_round i, 2) -> kle (pkey i0) (pkey i) -> R i0 (begin_converge c i j).
 Proof.
-  intros Eo Ee Ed Hlt Hle. unfold begin_converge.
+  intros Eo Ee Ed Ec Ei Hlt Hle. unfold begin_converge.
   destruct (negb _).
-  - apply (R_intro []); [exact Eo|exact Hle|]. split; [|exact Ed]. intros e H. cbn. rewrite Ee, H. reflexivity.
+  - apply (R_intro []); [exact Eo|exact Hle|]. split; [|split; [exact Ed|split; [exact Ec|exact Ei]]]. intros e H. cbn. rewrite Ee, H. reflexivity.
   - unfold broadcast, reset_rebroadcast, alarm_after.
-    eapply (R_advance_bcast _ _ [_]); [cbn; rewrite Eo; reflexivity|repeat constructor|exact Hlt|apply okey_same; discriminate|exact Ee|exact Ed].
+    eapply (R_advance_bcast _ _ [_]); [cbn; rewrite Eo; reflexivity|repeat constructor|exact Hlt|apply okey_same; discriminate|exact Ee|exact Ed|exact Ec|exact Ei].
 Qed.
 
 Lemma R_begin_next_round c i : i_phase i = COMMIT -> R i (begin_next_round c i).
@@ -238,22 +246,20 @@ Proof.
   assert (Hf : forall e, R i (fail i1 e)). { intros e. apply (R_intro []); [reflexivity|exact Hle|apply (Fr_fail i e)]. }
   repeat match goal with
          | |- R i (fail _ _) => apply Hf
-         | |- R i (begin_converge _ _ _) => apply R_begin_converge; [reflexivity|reflexivity|reflexivity|exact Hlt|exact Hle]
+         | |- R i (begin_converge _ _ _) => apply R_begin_converge; [reflexivity|reflexivity|reflexivity|apply incl_refl|reflexivity|exact Hlt|exact Hle]
          | |- R i (match ?x with _ => _ end) => destruct x
          end.
 Qed.
 
 Lemma same_add_candidate i v : same i (fst (add_candidate i v)).
-Proof. unfold add_candidate. destruct (is_candidate i v); repeat split. Qed.
+Proof. unfold add_candidate. destruct (is_candidate i v); [same_triv|]. repeat split; try reflexivity. cbn. apply incl_appl, incl_refl. Qed.
 Lemma same_add_candidate_prefixes i v : same i (add_candidate_prefixes i v).
 Proof.
   unfold add_candidate_prefixes. generalize (rev (all_prefixes v)) as l. intros l; revert i.
   induction l as [|p l IH]; intros i; simpl; [apply same_refl|].
   eapply same_trans; [apply same_add_candidate|apply IH].
 Qed.
-Lemma same_set_pv i p v : same i (set_pv i p v). Proof. repeat split. Qed.
-Lemma same_set_progress_eq i i' r p : same i i' -> same (set_progress i r p) (set_progress i' r p).
-Proof. intros (A & B & C & D). repeat split; assumption. Qed.
+Lemma same_set_pv i p v : same i (set_pv i p v). Proof. same_triv. Qed.
 
 Lemma R_skip_to_round c i round v j : i_round i < round -> phase_code (i_phase i) < 5 -> R i (skip_to_round c i round v j).
 Proof.
@@ -269,14 +275,14 @@ Proof.
   assert (E3 : same i1 i3).
   { unfold i3. destruct (phase_eqb (j_phase j) PREPARE); [|exact E2].
     eapply same_trans; [exact E2|]. eapply same_trans; [apply same_add_candidate|apply same_set_pv]. }
-  pose proof (same_round _ _ E3) as Er. destruct E3 as (E3 & E4 & E5 & E6).
-  apply R_begin_converge; [exact E3|exact E5|exact E6| |].
+  pose proof (same_round _ _ E3) as Er. destruct E3 as (E3 & E4 & E5 & E6 & E7 & E8).
+  apply R_begin_converge; [exact E3|exact E5|exact E6|exact E7|exact E8| |].
   - rewrite Er. unfold klt, pkey, i1; cbn. lia.
   - rewrite E4. right. unfold klt, pkey, i1; cbn. lia.
 Qed.
 
 Lemma R_terminate i j : phase_code (i_phase i) < 6 -> R i (terminate i j).
-Proof. intros H. apply (R_intro []); [reflexivity| |apply Fr_eq; reflexivity]. simpl. right. unfold klt, pkey; cbn. lia. Qed.
+Proof. intros H. apply (R_intro []); [reflexivity| |fr_eq]. simpl. right. unfold klt, pkey; cbn. lia. Qed.
 
 (* ---- try* ---- *)
 Lemma R_try_quality c i : i_phase i = QUALITY -> R i (try_quality c i).
@@ -305,7 +311,7 @@ Proof.
   intros Hp. unfold try_prepare.
   cbv zeta. match goal with |- R i (if _ then begin_commit c ?x else _) => set (i1 := x) end.
   assert (S : same i i1).
-  { unfold i1. repeat match goal with |- context [if ?b then _ else _] => destruct b end; repeat split. }
+  { unfold i1. repeat match goal with |- context [if ?b then _ else _] => destruct b end; same_triv. }
   destruct (_ || _ || _ || _).
   - eapply R_trans; [apply R_same; exact S|]. apply R_begin_commit. rewrite (same_phase _ _ S), Hp. cbn. lia.
   - eapply R_trans; [apply R_same; exact S|].
@@ -370,7 +376,7 @@ Proof.
   unfold begin_quality. destruct (negb _) eqn:Hc; [apply R_fail|].
   apply negb_false_iff, phase_eqb_true in Hc.
   unfold broadcast, reset_rebroadcast, alarm_after.
-  eapply (R_advance_bcast _ _ [_]); [reflexivity|repeat constructor| |apply okey_same; discriminate|reflexivity|reflexivity].
+  eapply (R_advance_bcast _ _ [_]); [reflexivity|repeat constructor| |apply okey_same; discriminate|reflexivity|reflexivity|apply incl_refl|reflexivity].
   unfold klt, pkey; cbn. rewrite Hc; cbn. lia.
 Qed.
 
@@ -432,7 +438,7 @@ Proof.
     + destruct (c_find_best _ _); [cbn; lia|cbn; rewrite E; cbn; lia].
   - unfold try_prepare. cbv zeta.
     match goal with |- context [begin_commit c ?x] => set (i1 := x) end.
-    assert (S : same i i1). { unfold i1. repeat match goal with |- context [if ?b then _ else _] => destruct b end; repeat split. }
+    assert (S : same i i1). { unfold i1. repeat match goal with |- context [if ?b then _ else _] => destruct b end; same_triv. }
     destruct (_ || _ || _ || _).
     + change (snd (pkey (begin_commit c i1)) <= 5). rewrite pkey_begin_commit. cbn; lia.
     + destruct (should_rebroadcast c i1).
@@ -454,8 +460,8 @@ Proof.
 Qed.
 
 (* ---- receiveOne ---- *)
-Lemma same_set_round_state i r s : same i (set_round_state i r s). Proof. repeat split. Qed.
-Lemma same_set_quality i q : same i (set_quality i q). Proof. repeat split. Qed.
+Lemma same_set_round_state i r s : same i (set_round_state i r s). Proof. same_triv. Qed.
+Lemma same_set_quality i q : same i (set_quality i q). Proof. same_triv. Qed.
 
 Lemma R_receive_one c i m sway : m_phase m <> DECIDE -> R i (fst (receive_one c i m sway)).
 Proof.
@@ -486,7 +492,7 @@ Proof.
 Qed.
 
 Lemma dec_clear_same i x : same i x -> dec_clear i -> dec_clear x.
-Proof. intros S Hd E. destruct S as (S1 & S2 & S3 & S4). rewrite S4. apply Hd. rewrite <- E. symmetry. apply same_phase. repeat split; assumption. Qed.
+Proof. intros S Hd E. pose proof (same_phase _ _ S) as Sp. destruct S as (S1 & S2 & S3 & S4 & _). rewrite S4. apply Hd. congruence. Qed.
 
 Lemma nt_receive_one c i m sway :
   m_phase m <> DECIDE -> dec_clear i -> i_phase i <> TERMINATED -> i_phase (fst (receive_one c i m sway)) <> TERMINATED.
@@ -518,12 +524,18 @@ Proof.
   - exact Hn.
 Qed.
 
+(* candidates only grow, the input never changes *)
+Definition Fc (i i' : inst) : Prop := incl (i_cands i) (i_cands i') /\ i_input i' = i_input i.
+Lemma Fc_R i i' : R i i' -> Fc i i'. Proof. intros [_ (_ & _ & H)]. exact H. Qed.
+Lemma Fc_trans a b c : Fc a b -> Fc b c -> Fc a c.
+Proof. intros [H1 H2] [H3 H4]; split; [eapply incl_tran; eauto|congruence]. Qed.
+
 Lemma try_decide_clear c i :
   i_phase i = DECIDE -> let i' := try_decide c i in
   i_phase i' = DECIDE -> i_err i' = None -> q_find_sq_value (i_decision i') = FsvNone.
 Proof.
   intros Hp. unfold try_decide. destruct (q_find_sq_value (i_decision i)) as [| |v] eqn:E; cbv zeta.
-  - intros _ _. destruct (R_try_rebroadcast c i) as [_ [_ Hd]]. rewrite Hd. exact E.
+  - intros _ _. destruct (R_try_rebroadcast c i) as [_ [_ [Hd _]]]. rewrite Hd. exact E.
   - intros _ H. cbn in H. destruct (i_err i); discriminate H.
   - destruct (q_find_sq_for c _ _).
     + intros _ H. cbn in H. destruct (i_err i); discriminate H.
@@ -537,7 +549,7 @@ Lemma receive_one_decide c i m sway :
   m_phase m = DECIDE -> m_round m = 0 -> i_phase i <> TERMINATED ->
   let i' := fst (receive_one c i m sway) in
   Rc i i' /\ (forall e, i_err i = Some e -> i_err i' = Some e) /\ 5 <= phase_code (i_phase i') /\
-  (i_phase i' = DECIDE -> i_err i' = None -> q_find_sq_value (i_decision i') = FsvNone).
+  (i_phase i' = DECIDE -> i_err i' = None -> q_find_sq_value (i_decision i') = FsvNone) /\ Fc i i'.
 Proof.
   intros Hm Hr Ht. unfold receive_one.
   apply phase_eqb_false in Ht. rewrite Ht.
@@ -556,11 +568,12 @@ Proof.
     - split; [apply R_refl|]. apply negb_false_iff, phase_eqb_true in Hd. exact Hd. }
   destruct H2 as (H2 & H2p).
   pose proof (R_try_current_phase c i2 sway) as H3.
-  repeat split.
+  split; [|split; [|split; [|split]]].
   - eapply Rc_trans; [exact H1|]. eapply Rc_trans; [apply H2|apply H3].
   - intros e He. apply H3. apply H2. rewrite H1e. exact He.
   - apply R_kle in H3. eapply kle_phase5 in H3; [exact H3|]. cbn. rewrite H2p. cbn. lia.
   - unfold try_current_phase. rewrite H2p. apply try_decide_clear. exact H2p.
+  - apply (Fc_trans i i1); [split; [apply incl_refl|reflexivity]|]. eapply Fc_trans; [apply Fc_R; exact H2|apply Fc_R; exact H3].
 Qed.
 
 (* ---- the per-step theorem ---- *)
@@ -574,7 +587,7 @@ Definition Inv (i : inst) : Prop :=
 
 Lemma Inv_R i i' : Inv i -> R i i' -> Inv i'.
 Proof.
-  intros (I1 & I2 & I3) HR. pose proof (R_kle _ _ HR) as Hk. destruct HR as [_ [He Hd]].
+  intros (I1 & I2 & I3) HR. pose proof (R_kle _ _ HR) as Hk. destruct HR as [_ [He [Hd _]]].
   pose proof (phase_code_range (i_phase i)) as Hrg.
   repeat split.
   - apply kle_round in Hk. cbn in Hk. lia.
@@ -593,25 +606,25 @@ Proof. repeat split; cbn; try lia; congruence. Qed.
 Lemma Inv_clear_out i : Inv i -> Inv (clear_out i). Proof. exact (fun H => H). Qed.
 
 Theorem step_ordered c i e :
-  Inv i -> wfe e -> Rc i (step c i e) /\ Inv (step c i e) /\ (forall x, i_err i = Some x -> i_err (step c i e) = Some x).
+  Inv i -> wfe e -> Rc i (step c i e) /\ Inv (step c i e) /\ (forall x, i_err i = Some x -> i_err (step c i e) = Some x) /\ Fc i (step c i e).
 Proof.
   intros HI Hw. destruct e as [now|now m sway|now sway].
   - assert (H : R i (step c i (EvStart now))).
-    { cbn. eapply R_trans; [apply R_same|apply R_begin_quality]. repeat split. }
-    split; [apply H|split; [eapply Inv_R; eauto|apply H]].
+    { cbn. eapply R_trans; [apply R_same|apply R_begin_quality]. same_triv. }
+    split; [apply H|split; [eapply Inv_R; eauto|split; [apply H|apply Fc_R; exact H]]].
   - cbn [step]. set (i0 := set_now i now).
-    assert (S0 : same i i0) by (repeat split).
+    assert (S0 : same i i0) by same_triv.
     assert (HI0 : Inv i0) by (eapply Inv_R; [exact HI|apply R_same; exact S0]).
     destruct (receive_one c i0 m sway) as [i1 changed] eqn:Ero.
     assert (E1 : i1 = fst (receive_one c i0 m sway)) by (rewrite Ero; reflexivity).
     destruct (phase_eqb (i_phase i0) TERMINATED) eqn:Ht.
     { (* terminated: the message is ignored *)
       unfold receive_one in Ero. rewrite Ht in Ero. inversion Ero; subst i1 changed. cbn [andb].
-      split; [apply (R_same _ _ S0)|split; [apply HI0|intros x Hx; exact Hx]]. }
+      split; [apply (R_same _ _ S0)|split; [apply HI0|split; [intros x Hx; exact Hx|apply Fc_R, R_same; exact S0]]]. }
     apply phase_eqb_false in Ht.
     destruct (phase_eqb (m_phase m) DECIDE) eqn:Hmd.
     + apply phase_eqb_true in Hmd. cbn in Hw. specialize (Hw Hmd).
-      destruct (receive_one_decide c i0 m sway Hmd Hw Ht) as (HRc & Hfe & H5 & Hcl). rewrite <- E1 in *.
+      destruct (receive_one_decide c i0 m sway Hmd Hw Ht) as (HRc & Hfe & H5 & Hcl & Hfc). rewrite <- E1 in *.
       assert (Hr1 : 0 <= i_round i1). { apply Rc_kle, kle_round in HRc. destruct HI0 as (H0 & _). cbn in *. lia. }
       assert (Hpost : (if changed && match i_err i1 with None => true | Some _ => false end then post_receive c i1 (m_round m) else i1) = i1).
       { destruct (changed && _); [|reflexivity]. unfold post_receive. rewrite Hw.
@@ -622,6 +635,8 @@ Proof.
       * intros Hlt. lia.
       * exact Hcl.
       * exact Hfe.
+      * apply Hfc.
+      * apply Hfc.
     + apply phase_eqb_false in Hmd.
       pose proof (R_receive_one c i0 m sway Hmd) as HR1. rewrite <- E1 in HR1.
       destruct (changed && match i_err i1 with None => true | Some _ => false end) eqn:Hc.
@@ -634,12 +649,12 @@ Proof.
         { apply R_post_receive. pose proof (phase_code_range (i_phase i1)). destruct (i_phase i1); cbn; try lia; congruence. }
         assert (HR : R i (post_receive c i1 (m_round m))).
         { eapply R_trans; [apply R_same; exact S0|]. eapply R_trans; eauto. }
-        split; [apply HR|split; [eapply Inv_R; eauto|apply HR]].
+        split; [apply HR|split; [eapply Inv_R; eauto|split; [apply HR|apply Fc_R; exact HR]]].
       * assert (HR : R i i1) by (eapply R_trans; [apply R_same; exact S0|exact HR1]).
-        split; [apply HR|split; [eapply Inv_R; eauto|apply HR]].
+        split; [apply HR|split; [eapply Inv_R; eauto|split; [apply HR|apply Fc_R; exact HR]]].
   - assert (H : R i (step c i (EvAlarm now sway))).
-    { cbn. eapply R_trans; [apply R_same|apply R_try_current_phase]. repeat split. }
-    split; [apply H|split; [eapply Inv_R; eauto|apply H]].
+    { cbn. eapply R_trans; [apply R_same|apply R_try_current_phase]. same_triv. }
+    split; [apply H|split; [eapply Inv_R; eauto|split; [apply H|apply Fc_R; exact H]]].
 Qed.
 
 (* ---- runs ---- *)
@@ -657,7 +672,7 @@ Proof.
   induction evs as [|e evs IH]; intros i HI Hw; cbn [run_hist].
   - split; [apply kle_refl|exact HI].
   - inversion Hw as [|? ? Hwe Hwr]; subst.
-    destruct (step_ordered c (clear_out i) e (Inv_clear_out i HI) Hwe) as (HRc & HI' & _).
+    destruct (step_ordered c (clear_out i) e (Inv_clear_out i HI) Hwe) as (HRc & HI' & _ & _).
     specialize (IH (step c (clear_out i) e) HI' Hwr).
     destruct (run_hist c (step c (clear_out i) e) evs) as [h f]. cbn [fst snd] in *.
     destruct IH as [IH1 IH2]. split; [|exact IH2].
@@ -705,10 +720,14 @@ Definition progress_le (a b : inst) : Prop :=
   i_round a < i_round b \/ (i_round a = i_round b /\ phase_code (i_phase a) <= phase_code (i_phase b)).
 Theorem progress_monotone c i e : Inv i -> wfe e -> progress_le i (step c i e).
 Proof.
-  intros HI Hw. destruct (step_ordered c i e HI Hw) as (HRc & _ & _). apply Rc_kle in HRc.
+  intros HI Hw. destruct (step_ordered c i e HI Hw) as (HRc & _ & _ & _). apply Rc_kle in HRc.
   unfold progress_le. destruct HRc as [E|[[H|[H1 H2]] _]]; cbn in *; [|lia|lia].
   injection E as E1 E2. lia.
 Qed.
 (* ... and the invariant it needs holds in every state reachable from a fresh instance *)
 Theorem reachable_Inv c input now evs : Forall wfe evs -> Inv (snd (run_hist c (new_instance input now) evs)).
 Proof. intros Hw. apply (run_hist_chain c evs _ (Inv_new input now) Hw). Qed.
+
+(* C07: the candidate set only grows and the input is never replaced, in every step *)
+Theorem candidates_monotone c i e : Inv i -> wfe e -> Fc i (step c i e).
+Proof. intros HI Hw. apply (step_ordered c i e HI Hw). Qed.
